@@ -183,7 +183,20 @@ impl Pair {
     }
 
     pub fn violation(&self) -> Option<Violation> {
-        self.viol.clone().or(self.ends[0].w.viol.clone()).or(self.ends[1].w.viol.clone())
+        if let Some(v) = &self.viol {
+            return Some(v.clone());
+        }
+        // A per-endpoint monitor tripped while two real endpoints talk to each other. The
+        // delivery / identifier / store / flow-control / alias / size clauses are part of C01's
+        // statement as well (exactly once, ids released, stores emptied, vacancy regained,
+        // original topic, no protocol error), so those count for C01 too.
+        let mut v = self.ends[0].w.viol.clone().or(self.ends[1].w.viol.clone())?;
+        const SUBSUMED: [&str; 7] = ["C05", "C06", "C07", "C08", "C12", "C13", "C14"];
+        if v.props.iter().any(|p| SUBSUMED.contains(p)) && !v.props.contains(&"C01") {
+            v.props.push("C01");
+            v.class = format!("endpoint/{}", v.class);
+        }
+        Some(v)
     }
 
     fn flag(&mut self, class: &str, msg: String) {
